@@ -48,6 +48,17 @@ func vCache(t testing.TB) *hugecache.Cache {
 	return cache
 }
 
+// vSmallCache: a cache that costs microseconds to create (per-load caches must not mask what a lookup reads from disk)
+func vSmallCache(t testing.TB) *hugecache.Cache {
+	cfg := bigcache.DefaultConfig(time.Minute)
+	cfg.Shards, cfg.MaxEntriesInWindow, cfg.MaxEntrySize, cfg.Verbose = 16, 2000, 500, false
+	cache, err := hugecache.NewWithConfig(context.Background(), cfg)
+	if err != nil {
+		t.Fatal(err)
+	}
+	return cache
+}
+
 func vConfig(epoch uint64, carPath string, paths *IndexPaths, gsfaDir string) *Config {
 	ver := uint64(1)
 	cfg := &Config{Epoch: &epoch, Version: &ver}
